@@ -1347,7 +1347,7 @@ def _stmt_consumes(st, l):
     return False
 
 
-def unconsumed_drops(fn, l):
+def unconsumed_drops(fn, l, avoid_edges=(), only_edges=None):
     """`drop(l)` terminators reachable from the (single) definition of l along a path on which l is
     never moved out: the value is destroyed there (moved-before-dropped typestate).  [(block)]"""
     sd = fn.single_def(l)
@@ -1356,6 +1356,7 @@ def unconsumed_drops(fn, l):
     b0, i0, kind = sd
     out = []
     seen = set()
+    avoid = set(avoid_edges)
     # (block, start index)
     work = [(b0, (i0 + 1) if kind == "assign" else None)]
     while work:
@@ -1388,6 +1389,8 @@ def unconsumed_drops(fn, l):
         if t["k"] == "yield" and _uses_move(t.get("value"), l):
             continue
         for s in fn.succs(b):
+            if (b, s) in avoid or (only_edges is not None and (b, s) not in only_edges):
+                continue                  # e.g. the edge on which the value was recognised as a duplicate / an infeasible edge
             if (s, False) not in seen:
                 work.append((s, 0))
     return out
@@ -1580,7 +1583,7 @@ def _locals_of(p):
     return frozenset(s)
 
 
-def reachable_tagged(fn, start, removed_edges=(), removed_blocks=(), max_states=50000):
+def reachable_tagged(fn, start, removed_edges=(), removed_blocks=(), max_states=50000, want_edges=False):
     """Blocks reachable from `start` when the *variant* of enum values built on the way is tracked: an
     `Err(..)` built in one block, moved through temporaries (or returned by an expanded helper), handed to
     `?` (Try::branch) and then switched on can only take the Break edge.  Plain reachability would also
@@ -1591,6 +1594,7 @@ def reachable_tagged(fn, start, removed_edges=(), removed_blocks=(), max_states=
     BR = {"Ok": ("Continue", 0), "Some": ("Continue", 0), "Err": ("Break", 1), "None": ("Break", 1)}
     seen = set()
     out = set()
+    edges_out = set()
     work = [(start, frozenset())]
     n = 0
     while work:
@@ -1602,7 +1606,10 @@ def reachable_tagged(fn, start, removed_edges=(), removed_blocks=(), max_states=
         seen.add((b, tags))
         n += 1
         if n > max_states:
-            return fn.reachable(start, removed_edges, removed_blocks)
+            r_ = fn.reachable(start, removed_edges, removed_blocks)
+            if want_edges:
+                return r_, {(a_, s_) for a_ in r_ for s_ in fn.succs(a_) if (a_, s_) not in removed_edges}
+            return r_
         out.add(b)
         tg = dict(tags)
         for st in fn.stmts(b):
@@ -1692,12 +1699,15 @@ def reachable_tagged(fn, start, removed_edges=(), removed_blocks=(), max_states=
         for s_ in (succs if succs is not None else fn.succs(b)):
             if (b, s_) in removed_edges:
                 continue
+            edges_out.add((b, s_))
             if learn is not None and s_ in learn[1] and learn[1][s_] is not None:
                 tg2 = dict(tg)
                 tg2[learn[0]] = learn[1][s_]
                 work.append((s_, frozenset(tg2.items())))
             else:
                 work.append((s_, nt))
+    if want_edges:
+        return out, edges_out
     return out
 
 
